@@ -59,6 +59,7 @@ def run_job(job_json):
     _assert_repo()
     t0 = time.perf_counter()
     out = {"name": job_json["name"], "violations": [], "inconclusive": [], "error": None}
+    covered = _start_line_cover() if os.environ.get("SYMX_COVER") else None
     try:
         body = _resolve(job_json["fn"])
         cfg = job_json["cfg"]
@@ -96,7 +97,31 @@ def run_job(job_json):
     except BaseException as e:  # noqa: BLE001 - report, never swallow
         out["error"] = "".join(traceback.format_exception(type(e), e, e.__traceback__))[-3000:]
     out["wall_s"] = round(time.perf_counter() - t0, 3)
+    if covered is not None:
+        out["covered"] = sorted(covered)
     return out
+
+
+def _start_line_cover():
+    """Diagnostic (SYMX_COVER=1): which lines of the library the harnesses execute - used to find code no check reaches"""
+    mon = sys.monitoring
+    tool = 3
+    hit = set()
+    try:
+        mon.use_tool_id(tool, "symx-cover")
+    except ValueError:
+        pass
+
+    def on_line(code, line):
+        fn = code.co_filename
+        if "/menelaus/" in fn:
+            hit.add((fn.split("/menelaus/", 1)[1], line))
+        return mon.DISABLE
+
+    mon.register_callback(tool, mon.events.LINE, on_line)
+    mon.set_events(tool, mon.events.LINE)
+    mon.restart_events()
+    return hit
 
 
 def replay_model(job_json, model):
@@ -230,6 +255,11 @@ def main(argv=None):
                 results.append(r)
     else:
         results = [run_job(j) for j in jj]
+
+    if os.environ.get("SYMX_COVER"):
+        cov = sorted({tuple(c) for r in results for c in r.get("covered", [])})
+        with open(os.environ["SYMX_COVER"] + f".{prop}.json", "w") as f:
+            json.dump(cov, f)
 
     from .core import Stats
 
